@@ -418,3 +418,35 @@ Example C09_float_incl_excl_conditions :
   f_lt true (f_sub true (f_xmax true 0 4607182418800017408) (correction_delta true)) 4607182418800017408 = true /\
   f_lt false (f_sub false (f_xmax false 1115684864 1115815936) (correction_delta false)) 1115815936 = false.
 Proof. vm_compute. auto. Qed.
+
+(* --- floats: ONE decision procedure over all shapes --------------------------------------------
+   Sem/ArbFloatDecide.arb_float_decide reads a declaration (family, sanitizers, validators, bound
+   values) and answers Total / PanicsOn bs / Unknown; it is run by the correspondence on every
+   float declaration of the Arbitrary corpus.  Total is a THEOREM about every byte string, PanicsOn
+   names a failing input. *)
+From NV Require Import Sem.ArbFloatDecide Lemmas.ArbFloatDecideLemmas.
+
+Theorem C09_float_decided_total :
+  forall (lib : fnlib) (d : decl) (bs : bytes),
+    arb_float_decide d = AVTotal -> bytes_ok bs = true ->
+    exists v, arb_float lib d bs = OOk v /\ spec_valid lib d v = true.
+Proof. exact arb_float_decide_total_sound. Qed.
+Print Assumptions C09_float_decided_total.
+
+Theorem C09_float_decided_panics :
+  forall (lib : fnlib) (d : decl) (bs : bytes),
+    arb_float_decide d = AVPanicsOn bs -> arb_float lib d bs = OPanic /\ bytes_ok bs = true.
+Proof.
+  intros lib d bs H. split.
+  - exact (arb_float_decide_panics_sound lib d bs H).
+  - exact (arb_float_decide_panics_bytes_ok d bs H).
+Qed.
+Print Assumptions C09_float_decided_panics.
+
+(* the three answers occur: f64 [0.0, 1.0) is total, f32 [64.0, 65.0) panics on the all-ones input,
+   f32 `finite, less_or_equal = -3.0e38` is left open (it belongs to a recorded class) *)
+Example C09_float_decided_examples :
+  arb_float_decide (ex_decl (FFloat true) [] [VGreaterOrEqual (BLit 0); VLess (BLit 4607182418800017408)]) = AVTotal /\
+  arb_float_decide (ex_decl (FFloat false) [] [VGreaterOrEqual (BLit 1115684864); VLess (BLit 1115815936)]) = AVPanicsOn [255; 255; 255; 255] /\
+  arb_float_decide (ex_decl (FFloat false) [] [VFinite; VLessOrEqual (BLit 4284688930)]) = AVUnknown.
+Proof. vm_compute. auto. Qed.
